@@ -13,7 +13,7 @@ import (
 
 // Gamma returns a random number of gamma distribution (alpha > 0.0 and beta > 0.0)
 func Gamma(alpha, beta float64) float64 {
-	if !(alpha > 0.0) || !(beta > 0.0) {
+	if !(alpha > 0.0) || !(beta > 0.0) || math.IsInf(alpha, 1) || math.IsInf(beta, 1) {
 		io.ExitWithMessage(errors.New(fmt.Sprintf("Invalid parameter alpha %.2f beta %.2f", alpha, beta)))
 	}
 	return gamma(alpha, beta)
